@@ -1,6 +1,7 @@
 package checks
 
 import (
+	"strings"
 	"fmt"
 	"time"
 
@@ -286,8 +287,21 @@ func C15(e *simkern.Env) {
 			},
 		})
 		_ = err
-		if reason == simkern.StopDeadlock {
-			e.Harness("C15 world deadlocked")
+		if reason == simkern.StopDeadlock && !e.Violated() {
+			// nothing can move any more. When what is stuck is a client's request
+			// parked inside the instance (on one of the server's own locks), the
+			// instance never answers a request that the cache-less twin answers
+			inServer := ""
+			for _, t := range sim.Tasks() {
+				if parked, site := t.Parked(); t.Root && !t.Done() && parked && (strings.Contains(site, "http_state.go") || strings.Contains(site, "http_stream.go") || strings.Contains(site, "http.go")) {
+					inServer = t.Name + " at " + site
+				}
+			}
+			if inServer != "" {
+				e.Violate("request-never-answered", "call-state-cache", "no task can move and a request is parked inside the instance for good (%s): %s", inServer, sim.Stuck())
+			} else {
+				e.Harness("C15 world deadlocked: %s", sim.Stuck())
+			}
 		}
 		if reason == simkern.StopBudget {
 			e.Inconclusive("step budget")
